@@ -241,19 +241,30 @@ crypto.ECDH.__deepcopy__ = _dh_copy
 # ------------------------------------------------------------------ kernel: netlink sockets
 
 class _NlRequestSocket:
+    """a netlink request socket: what the kernel answers is queued on the socket until it is read (a reply that is never
+    read - recv() failed - is still there when the socket is used again); the kernel it talks to is the one of the daemon
+    whose code is running (the two daemons of a world live in one process and share class attributes)"""
+
     def __init__(self, ep):
         self.ep = ep
-        self.reply = b''
+        self.queue = []
 
     def send(self, data):
+        ep = CTX.ep if CTX.ep is not None else self.ep
         # the kernel addresses its reply to the port ID of the requesting *socket* (not to nlmsg_pid of the request):
         # the first netlink socket of a process is auto-bound to its pid, any further one to a value of the kernel's own
-        portid = 4242 if not getattr(self.ep, 'nl_event_open', False) else 0xFC1D5D66
-        self.reply = self.ep.kernel.request(bytes(data), portid)
+        portid = 4242 if not getattr(ep, 'nl_event_open', False) else 0xFC1D5D66
+        self.queue.append(ep.kernel.request(bytes(data), portid))
+        self.recv_fails = ep.kernel.take_recv_failure()
         return len(data)
 
     def recv(self, n):
-        return self.reply
+        if getattr(self, 'recv_fails', None):
+            errno, self.recv_fails = self.recv_fails, None
+            raise OSError(errno, 'netlink socket (recv): ' + os.strerror(errno))
+        if not self.queue:
+            raise RuntimeError('harness: recv() on a netlink socket with nothing queued')
+        return self.queue.pop(0)
 
     def close(self):
         pass
